@@ -24,10 +24,16 @@ C15Opts == [fmt : 0..4, loop : 0..2, tb : BOOLEAN, force : BOOLEAN, verbose : BO
 \* C16: all defect sets of size <= 2 per model (Defects.tla), as sequences for JSON
 C16Sets == [mssm |-> DefectSets("mssm"), thdm |-> DefectSets("thdm")]
 
+\* C19: schedules = per-thread operation lists over the alphabet of Purity.tla (random sample;
+\* the interleavings themselves are explored exhaustively in Purity.tla)
+C19OpArg == {"amu:shared", "amu:priv", "amu_nr:shared", "amu_nr:priv", "unc:shared", "unc:priv", "spectrum:priv", "construct:priv"}
+C19Sched(j, nt) == [t \in 1..nt |-> [i \in 1..(2 + (j % 3)) |-> RandomElement(C19OpArg)]]
+C19Scheds == {[nt |-> nt, lists |-> C19Sched(j, nt)] : j \in 1..60, nt \in {2, 3, 4, 8, 16}}
+
 VARIABLE x
 Init == x = 0
 Next == UNCHANGED x
 Spec == Init /\ [][Next]_x
 
-ASSUME JsonSerialize(IOEnv.GEN_OUT, [C18 |-> C18Cases, C06 |-> C06Cases, C07 |-> C07Cases, C15 |-> C15Opts, C16 |-> C16Sets])
+ASSUME JsonSerialize(IOEnv.GEN_OUT, [C18 |-> C18Cases, C06 |-> C06Cases, C07 |-> C07Cases, C15 |-> C15Opts, C16 |-> C16Sets, C19 |-> C19Scheds])
 =============================================================================
